@@ -26,7 +26,10 @@ pub fn search(ctx: &Context, query: &str, num_results: usize) -> SearchReply {
         results: search_internal(ctx, query, num_results)
             .into_iter()
             .map(|name| {
+                // The names come from the registry. Context::lookup would
+                // answer `ans` and `_` with the previous result instead.
                 let parts = ctx
+                    .registry
                     .lookup(name)
                     .map(|x| x.to_parts(ctx))
                     .or_else(|| {
